@@ -41,6 +41,24 @@ PROPS = {
         "trusted": ["vnet receive socket fake; testing/synctest for goroutine quiescence"],
         "assumptions": ["a NAK aborts in the three ACK-waiting states; while waiting for an OFFER it is 'not the expected type' and ignored (as coded)"],
     },
+    "C15": {
+        "level": "The client automaton as a transition function over events (accepted reply, NAK, deadline, ARP answer, SetIface result, T1, link-up): the "
+                 "interface is configured only in the step that ends a conflict-free ARP probe and only with the filtered configuration built from an "
+                 "accepted reply of the history (setIface_step, setIface_only_acknowledged), conflict / SetIface error / NAK / expiry start over, "
+                 "T1 <= T2 <= expiry for every lease including the float64 rounding of 0.875*lease (deadlines_ordered), link-up re-validates — Lean "
+                 "theorems over all event lists; tied to the code by running the real dclient (with the mclient loop) under a virtual clock against a "
+                 "scripted server and comparing the complete effect timeline (callbacks, frames, probes, deadlines, libif operations).",
+        "props": ["C15"],
+        "streams": [{"test": "TestCliAuto", "names": ["cliauto"], "timeout": 300}, {"test": "TestCliSan", "names": ["clisan"], "timeout": 300}],
+        "rule": "scripts of 6-20 decisions: at each exchange {valid reply, NAK, invalid replies then silence, silence, link-up}, at each ARP probe {no answer, "
+                "own MAC, foreign MAC}, SetIface failing 15%, once bound {wait for T1, link-up after 1-20 s}; leases {61 s .. 2^32-1 s}, server T1/T2 "
+                "consistent / inconsistent / absent, masks present / absent / non-contiguous; plus buildNetconfig/filterNetconfig on random replies; "
+                "non-trivial = more than two events consumed",
+        "trusted": ["fake libif and ifmon hooks; the mclient.Run / monitor glue is re-implemented in the harness (12 lines)",
+                    "virtual clock: wall-clock drift and hackAbsoluteSleep's 17 s polling are not exhibited"],
+        "partial": "Partial: real netlink behaviour and wall-clock drift are not exhibited. Observation (modelled as coded): a link-up while an exchange is "
+                   "already rebinding makes that exchange fail into 'purge', so the client starts over instead of re-entering rebinding.",
+    },
     "C16": {
         "level": "Each of the four client message templates read back with the stack's decoders has exactly the source/destination/ciaddr/option "
                  "pattern of its state, ports 68->67, valid checksums, hardware address, derived client identifier (template_wire); retransmission "
@@ -66,6 +84,40 @@ PROPS = {
                 "chroot binary; non-trivial = non-empty value / file written",
         "trusted": ["regexp and unicode/utf8 (re-implemented in the model as character classes + rune segmentation, compared on every case)",
                     "net.IP.String / IPMask.String / Sprintf(%d)", "os/exec (drops duplicate environment keys)", "chroot(2) as root in the sandbox"],
+    },
+    "C19": {
+        "level": "For each of the three socket disciplines the model executes every schedule of outcomes (creation failing, reads/writes failing or "
+                 "succeeding, the body returning, the parent context cancelled at any point): once the function has returned and its closer has run, "
+                 "opened = closed and no helper goroutine remains (no_leak, balance_invariant), prompt return after cancel (closer_shutdown_prompt) — "
+                 "Lean theorems over the discipline skeletons; which function follows which discipline is extracted from the source on every run "
+                 "(Expect.c19_socket_disciplines); the real functions are fault-enumerated on the virtual sockets (n-th create/write/read fails, "
+                 "cancel at every listed instant) with open/close counters and goroutine counts.",
+        "props": ["C19"],
+        "streams": [{"test": "TestResFaults", "names": ["resfaults"], "timeout": 900}],
+        "rule": "functions {arpping.Ping, dclient.sendMessage, dclient.catchReply, server.Run+handlers} x answers x {no fault, n-th socket creation fails "
+                "(n=1..6), n-th write fails (1..3), n-th read fails (1..3), cancel at 0/1/49/50/199/200/201/650/700/1500 ms}; thorough adds fault x "
+                "cancel pairs and 1500 random triples; non-trivial = at least one socket was opened",
+        "trusted": ["vnet socket fakes count opens/closes per kind; runtime.NumGoroutine inside a synctest bubble",
+                    "factgen's discipline classifier (syntactic shape of open / defer Close / closer goroutine per function)"],
+        "partial": "Partial: real file descriptors, the runtime poller and timer leaks (time.After) are not exhibited; the theorems are about "
+                   "discipline skeletons, tied to the code by the extracted facts and the fault enumeration.",
+        "technique": "Lean 4 theorems over discipline skeletons + source facts regenerated per run + fault enumeration of the real functions",
+    },
+    "C20": {
+        "level": "For any number of writers, any scheduler, a failure at any step and kills anywhere, the target is always the complete previous file or one "
+                 "writer's complete buffer with mode 0644 (reader_sees_whole_file); a failing update removes its temp file and leaves the previous file "
+                 "(failed_update_*) — Lean theorems over the file-system machine; the call sequence of update() is extracted from the source on every run "
+                 "(Expect.c20_update_call_sequence); the real psa-dhcpc -syshook binary is run in a chroot under strace with an error injected at, and "
+                 "a SIGKILL delivered on entry to, each file-system call, and as 4-8 concurrent writers (some killed) with a polling reader.",
+        "props": ["C20"],
+        "streams": [{"test": "TestFsAtomic", "names": ["fsatomic"], "timeout": 900}],
+        "rule": "steps {create, write, close, chmod, rename} x {error injected, SIGKILL on entry} x {previous file present, absent} x name-server lists; "
+                "concurrent rounds of 4-8 real writers with 25% killed at a random instant and a reader polling the target; non-trivial = every case",
+        "trusted": ["rename(2) atomicity, O_EXCL uniqueness of temp names (kernel)", "strace 6.1 fault injection; chroot(2) as root",
+                    "the dry-run trace locates each step's system call (n-th occurrence)"],
+        "partial": "Partial: durability across power loss (no fsync is claimed) and other file systems' rename are not exhibited; short writes are not "
+                   "injectable with strace (Go retries them) and are covered by the model only.",
+        "technique": "Lean 4 theorems over a file-system machine + extracted call sequence + syscall fault/kill enumeration on the real binary",
     },
     "C12": {
         "level": "DHCP codec: decode(assemble m) = m for every representable message, acceptance of arbitrary bytes iff the RFC 2131 layout + RFC 2132 "
